@@ -214,3 +214,41 @@ Lemma strop_injective_on_clean_ascii_thm l ty s1 s2 :
   str_eqb (lower ty) ty_all = false -> clean_ascii l ty s1 = true -> clean_ascii l ty s2 = true ->
   strop_lang l ty s1 = strop_lang l ty s2 -> s1 = s2.
 Proof. intros Hty H1 H2 E. rewrite (strop_id_ascii_thm l ty s1 Hty H1), (strop_id_ascii_thm l ty s2 Hty H2) in E. congruence. Qed.
+
+(* ---- what exactly an (override) configuration must satisfy: chk_base spelled out as a decidable predicate ---- *)
+Definition affix_ok (a : str) : Prop := all_ident a = true.                       (* only [A-Za-z0-9_] *)
+Definition head_ok (a : str) : Prop := hd_ok a = true.                            (* non-empty, does not start with a digit *)
+
+Lemma chk_base_spelled_out_thm cfg :
+  chk_base py_uni cfg = true <->
+  (   (* what the encoder inserts for an illegal character: encoding_prefix + 4 hex digits, or whitespace_encoding_char *)
+      affix_ok (sc_enc_prefix cfg) /\ head_ok (sc_enc_prefix cfg)
+   /\ match sc_ws_char cfg with Some w => affix_ok w /\ head_ok w | None => True end
+      (* stropping_prefix / stropping_suffix: identifier characters only; a non-empty prefix does not start with a digit *)
+   /\ affix_ok (sc_prefix cfg) /\ affix_ok (sc_suffix cfg) /\ (sc_prefix cfg = [] \/ head_ok (sc_prefix cfg))
+      (* the `all` encoding rules contain  X a*  (e.g. X+) with X a negated plain class whose complement is within [A-Za-z0-9_] *)
+   /\ existsb good_clsplus (rules_of cfg ty_all) = true
+      (* a leading digit is dealt with: an `all` encoding rule or an `all` reserved pattern of the form ^X with 0-9 within X *)
+   /\ (existsb (good_boldigit py_uni) (rules_of cfg ty_all) = true \/ existsb (good_boldigit py_uni) (pats_of cfg ty_all) = true)).
+Proof.
+  unfold chk_base, chk_enc_out, chk_affixes, rules_digit_guard, pats_digit_guard, affix_ok, head_ok.
+  rewrite !andb_true_iff, orb_true_iff. destruct (sc_ws_char cfg) as [w|]; destruct (sc_prefix cfg) as [|p ps];
+    rewrite ?andb_true_iff; intuition (auto; try discriminate).
+Qed.
+
+(* the CURRENT code with an affix outside the identifier alphabet: the dry-run of the encoding looks at the first character only
+   (pattern.match), so the suffix gets through -- known finding F-STROP-ILLEGAL-AFFIX *)
+Definition cfg_c_suffix (suf : str) : strop_cfg :=
+  {| sc_reserved := sc_reserved cfg_c; sc_patterns := sc_patterns cfg_c; sc_rules := sc_rules cfg_c;
+     sc_prefix := sc_prefix cfg_c; sc_suffix := suf; sc_enc_prefix := sc_enc_prefix cfg_c;
+     sc_ws_char := sc_ws_char cfg_c; sc_collapse := sc_collapse cfg_c;
+     sc_strop_handler := sc_strop_handler cfg_c; sc_enc_handler := sc_enc_handler cfg_c; sc_reverify := sc_reverify cfg_c |}.
+
+Lemma strop_illegal_affix_refuted_thm :
+  (* stropping_suffix "-":  if -> _if-          stropping_suffix "/../x", type path:  if -> _if/../x *)
+  strop py_uni py_isspace (cfg_c_suffix [45]) ty_any [105; 102] = Ok [95; 105; 102; 45]
+  /\ valid_ident [95; 105; 102; 45] = false
+  /\ strop py_uni py_isspace (cfg_c_suffix [47; 46; 46; 47; 120]) [112; 97; 116; 104] [105; 102] = Ok [95; 105; 102; 47; 46; 46; 47; 120]
+  /\ valid_ident [95; 105; 102; 47; 46; 46; 47; 120] = false
+  /\ chk_base py_uni (cfg_c_suffix [45]) = false.
+Proof. vm_compute. repeat split; reflexivity. Qed.
